@@ -13,7 +13,15 @@ Proof. unfold in_range. rewrite andb_true_iff, !Z.leb_le. tauto. Qed.
 Lemma in_range_false t z : in_range t z = false <-> ~ (imin t <= z <= imax t).
 Proof. rewrite <- in_range_iff. destruct (in_range t z); split; congruence || tauto. Qed.
 
-Ltac ity_cases t := destruct t; simpl in *.
+Ltac closed_pows :=
+  repeat match goal with
+  | |- context [Z.pow_pos 2 ?n] =>
+      let v := eval vm_compute in (Z.pow_pos 2 n) in change (Z.pow_pos 2 n) with v
+  | H : context [Z.pow_pos 2 ?n] |- _ =>
+      let v := eval vm_compute in (Z.pow_pos 2 n) in change (Z.pow_pos 2 n) with v in H
+  end.
+Ltac ity_cases t :=
+  destruct t; unfold imin, imax, wmod, wbits in *; simpl in *; closed_pows.
 
 Lemma wrap_in_range t z : in_range t (wrap t z) = true.
 Proof.
@@ -96,22 +104,26 @@ Proof.
 Qed.
 
 (* ---- ranges of quotient and remainder ---- *)
+Lemma rem_between a b : b <> 0 -> (0 <= a -> 0 <= Z.rem a b <= a) /\ (a <= 0 -> a <= Z.rem a b <= 0).
+Proof.
+  intros Nb.
+  assert (P : forall x, 0 <= x -> 0 <= Z.rem x b <= x).
+  { intros x Hx. rewrite <- Z.rem_abs_r by assumption.
+    rewrite Z.rem_mod_nonneg by lia.
+    split. apply Z.mod_pos_bound; lia. apply Z.mod_le; lia. }
+  split; intros H.
+  - apply P; assumption.
+  - replace a with (- (- a)) at 2 by lia. rewrite Z.rem_opp_l by assumption.
+    specialize (P (- a)). lia.
+Qed.
+
 Lemma rem_in_range t a b :
   in_range t a = true -> in_range t b = true -> b <> 0 -> in_range t (Z.rem a b) = true.
 Proof.
-  intros Ha Hb Nb. apply in_range_iff in Ha. apply in_range_iff in Hb. apply in_range_iff.
-  pose proof (Z.rem_bound_pos_pos).
-  assert (Hr : Z.abs (Z.rem a b) <= Z.abs a).
-  { destruct (Z.eq_dec a 0) as [->|Na]. { rewrite Z.rem_0_l by assumption. lia. }
-    pose proof (Z.rem_bound_abs a b Nb).
-    destruct (Z_lt_le_dec (Z.abs a) (Z.abs b)).
-    - rewrite Z.rem_small_iff in * by assumption. lia.
-    - lia. }
-  assert (Hs : 0 <= Z.rem a b * a).
-  { destruct (Z.eq_dec (Z.rem a b) 0) as [->|Nr]; [lia|].
-    pose proof (Z.rem_sign_nz a b Nb Nr) as S.
-    destruct a, (Z.rem a b); simpl in *; try lia; try discriminate. }
-  ity_cases t; nia.
+  intros Ha Hb Nb. apply in_range_iff in Ha. apply in_range_iff.
+  destruct (rem_between a b Nb) as [P N].
+  assert (imin t <= 0 <= imax t) by (ity_cases t; lia).
+  destruct (Z_le_gt_dec 0 a); [specialize (P ltac:(lia))|specialize (N ltac:(lia))]; lia.
 Qed.
 
 Lemma unsigned_quot t a b :
